@@ -51,8 +51,9 @@ IMPL_WORKERS = int(os.environ.get("VERIF_IMPL_WORKERS", "0") or 0) or max(1, min
 KINDS = {
     "real":     dict(atom=Real, choice="real", a=1.0, b=2.0, c=3.5),
     "double":   dict(atom=Double, choice="double", a=1.0, b=2.0, c=3.5),
-    "binary":   dict(atom=BinaryPV, choice="enumerated", a="active", b="inactive"),
-    "door":     dict(atom=DoorValue, choice="enumerated", a="unlock", b="pulseUnlock", c="extendedPulseUnlock"),
+    # x: a number that is not a value of the enumeration (refused; Cmd.tla: Undefined)
+    "binary":   dict(atom=BinaryPV, choice="enumerated", a="active", b="inactive", x=5),
+    "door":     dict(atom=DoorValue, choice="enumerated", a="unlock", b="pulseUnlock", c="extendedPulseUnlock", x=77),
     "unsigned": dict(atom=Unsigned, choice="unsigned", a=1, b=2, c=3),
     "integer":  dict(atom=Integer, choice="integer", a=-1, b=2, c=300000),
     "bits":     dict(atom=BitString, choice="bitString", a=[1, 0], b=[0, 1], c=[1, 1, 0, 1, 0, 0, 0, 0, 1]),
@@ -251,6 +252,8 @@ class Direct:
             value = raw
         elif value_tok == NULL:
             value = ()
+        elif value_tok == "x" and "x" not in KINDS[kind]:
+            return None, None       # no undefined value can be expressed through the Python API for this datatype
         else:
             value = py_value(kind, value_tok)
         try:
@@ -295,7 +298,11 @@ class Wire:
     def write(self, prop, value_tok, kind, priority=None, index=None, raw=None):
         req = WritePropertyRequest(objectIdentifier=self.oid, propertyIdentifier=prop)
         req.propertyValue = Any()
-        req.propertyValue.cast_in(Unsigned(raw) if raw is not None else wire_value(kind, value_tok))
+        if value_tok == "x" and "x" not in KINDS[kind]:
+            # not a value of the datatype: another application type on the wire
+            req.propertyValue.cast_in(Real(1.5) if KINDS[kind]["choice"] == "characterString" else CharacterString("x"))
+        else:
+            req.propertyValue.cast_in(Unsigned(raw) if raw is not None else wire_value(kind, value_tok))
         if priority is not None:
             req.priority = priority
         if index is not None:
@@ -398,7 +405,9 @@ class Run:
             if v == "idx0":
                 res, note = self.path.write("priorityArray", None, self.kind, index=0, raw=5)
             else:
-                res, note = self.path.write("presentValue", v, self.kind, priority=p)
+                res, note = self.path.write("presentValue", v, self.kind, priority=None if (v == "x" and p == 0) else p)
+                if res is None:
+                    return None
         elif op == "tick":
             vt.now = vt.now + p
         elif op == "expire":
@@ -463,6 +472,8 @@ def run_ops(name, mode, rdef, min_on, min_off, ops, expect=None, omit_pv=False):
                 out["hang"] = True
                 out["evs"].append({"op": op, "p": p, "v": v, "res": "hang"})
                 break
+            if evs == [None]:
+                continue            # not expressible on this path (refusal without effect in the design: nothing to follow)
             out["evs"] += evs
             if expect is not None:
                 x, ev = expect[i], evs[0]
@@ -714,6 +725,8 @@ def random_ops(rng, kind, n, timed):
             ops.append(("relinquish", p, NULL))
         elif r < 0.93:
             ops.append(("bad", 0, "idx0"))
+        elif r < 0.96:
+            ops.append(("bad", p, "x"))         # a valid priority, not a value of the datatype
         else:
             ops.append(("bad", rng.choice([0, 17, 18, 255, 256, 100000]), rng.choice(toks + "n").replace("n", NULL)))
     return ops
